@@ -394,6 +394,10 @@ def check_c01_c02(c, result):
             qid = 'jd_%s%d' % (tagname, j)
             tq14.append((qid, 'FROM method_declaration AS m WHERE m.getDoc().%s() == %s SELECT m.getName()' % (accn, querygen.lit(v))))
             want14[qid] = Counter((engine.hexs(n['file']), int(n['line']), engine.hexs(n['snippet'])) for n, d in docn if d and objview._first(d['tags'], tagname) == v)
+            # ... and the complement: every method whose comment does not say so (methods without a comment included)
+            tq14.append((qid + 'n', 'FROM method_declaration AS m WHERE m.getDoc().%s() != %s SELECT m.getName()' % (accn, querygen.lit(v))))
+            want14[qid + 'n'] = Counter((engine.hexs(n['file']), int(n['line']), engine.hexs(n['snippet'])) for n in c.nodes if engine.hexs(n['type']) == 'method_declaration'
+                                        and (objview._first((objview._doc(n['doc']) or dict(tags=[]))['tags'], tagname) if n.get('doc', '~') != '~' else '') != v)
     if tq14:
         res14, _, _ = c.run(tq14)
         c.stats['javadoc_condition_queries'] = len(tq14)
@@ -713,6 +717,25 @@ def check_c12(c, result):
                                                         [texts[ids['A']], texts[ids['B']]] + [t for q_, t in texts.items() if q_ in ids.values()][:6],
                                                         'law %s: got %d results, expected %d; A=%s B=%s forms=%s' % (name, len(got), len(exp), forms['A'], forms['B'], str({k: v for k, v in forms.items() if k in ('PARMIX', 'MIX~min')})[:300]), c.files))
                 break
+    # laws over Javadoc atoms once more with every query in a process of its own (a lazily built index inside the loaded
+    # graph would make one long session consistently right or consistently wrong)
+    for scope_, A_, B_, C_ in [f_[:4] for f_ in forced if 'getDoc().GetComment' in f_[1][1] and len(f_) == 4]:
+        al_, k_ = scope_[0]
+        hd_ = 'FROM %s AS %s WHERE ' % (k_, al_)
+        tl_ = ' SELECT ' + al_
+        forms_ = dict(A=A_[1], B=B_[1], AND='(%s) && (%s)' % (A_[1], B_[1]), COM='(%s) && (%s)' % (B_[1], A_[1]), OR='(%s) || (%s)' % (B_[1], A_[1]), NB='!(%s) || !(%s)' % (B_[1], A_[1]), DM='!((%s) && (%s))' % (B_[1], A_[1]))
+        Rf = {}
+        for nm_, w_ in forms_.items():
+            rf_, _, _ = c.run([('f', hd_ + w_ + tl_)])
+            Rf[nm_] = set(tuples_of(rf_['f'][1], 1)) if rf_.get('f', ('', ''))[0] == 'ok' else None
+            c.stats['c12_fresh_process_queries'] += 1
+        if all(v is not None for v in Rf.values()):
+            for name, got, exp in [('and = intersection', Rf['AND'], Rf['A'] & Rf['B']), ('commutation &&', Rf['COM'], Rf['AND']), ('or = union', Rf['OR'], Rf['A'] | Rf['B']), ('De Morgan 1', Rf['DM'], Rf['NB'])]:
+                c.stats['c12_laws_checked'] += 1
+                if got != exp:
+                    result.violations.append(payload_replay('C12', 'boolean connectives are not set operations (each query in a process of its own): ' + name, [hd_ + w_ + tl_ for w_ in forms_.values()],
+                                                            'law %s: got %d results, expected %d; A=%s B=%s' % (name, len(got), len(exp), A_[1], B_[1]), c.files))
+                    break
     # the same laws where the candidate combinations run into the tens of thousands (two populous kinds): whatever
     # batches, chunks or streams the candidates must still give set operations
     NB = 190 if c.tier == 'quick' else 260
